@@ -259,6 +259,21 @@ def recursion_cases():
     # not recursive: a diamond of pipelines without parameters, callee declared before and after
     c("diamond_ok", stage + pl(b"D", [b"S"]) + pl(b"B", [b"D"]) + pl(b"C", [b"D"]) + pl(b"A", [b"B", b"C"]) + top(b"A"))
     c("forward_ok", stage + pl(b"A", [b"B"]) + pl(b"B", [b"S"]) + top(b"A"))
+    # a ladder of pipelines each calling the next one twice: 2^48 call paths, 49 pipelines
+    def pl2(name, callee):
+        return (b"pipeline %s(\n)\n{\n    call %s as X(\n    )\n    call %s as Y(\n    )\n    return (\n    )\n}\n\n" % (name, callee, callee))
+    n = 48
+    ladder = stage + pl(b"P%d" % n, [b"S"]) + b"".join(pl2(b"P%d" % i, b"P%d" % (i + 1)) for i in range(n - 1, -1, -1))
+    out.append(case("rec:ladder48", "compile", ladder + b"call S(\n)\n"))
+    # structs that contain arrays / typed maps of themselves, alone and two of the same shape
+    # bound to each other
+    for cid, field in (("arr", b"NODE[] children"), ("map", b"map<NODE> children"), ("arr2", b"NODE[][] children"), ("direct", b"NODE child")):
+        src = b"struct NODE(\n    int value,\n    %s,\n)\n\n" % field
+        out.append(case("rec:struct_" + cid, "callgraph", src + b"stage T(\n    in  NODE n,\n    src py \"t\",\n)\n"))
+        src2 = src + src.replace(b"NODE", b"TREE") + (
+            b"stage MK(\n    out NODE n,\n    src py \"m\",\n)\n\nstage USE(\n    in  TREE t,\n    src py \"u\",\n)\n\n"
+            b"pipeline P(\n)\n{\n    call MK(\n    )\n\n    call USE(\n        t = MK.n,\n    )\n\n    return (\n    )\n}\n\ncall P(\n)\n")
+        out.append(case("rec:struct2_" + cid, "callgraph", src2))
     return out
 
 
